@@ -197,6 +197,15 @@ func runC12(cfg *RunCfg) {
 			if perr == nil {
 				packedOK = true
 				packed = append([]byte(nil), p...)
+				// the packed payload must stay intact while OTHER payloads are packed (frames are
+				// built by concurrent writers; a filter must not hand out a buffer it recycles)
+				other := RandBytes(cfg.Rng, 1+cfg.Rng.Intn(300))
+				for k := 0; k < 3; k++ {
+					pipe.OnPack(append([]byte(nil), other...))
+				}
+				if !bytes.Equal(p, packed) {
+					st.Fail(i, "packed-result-overwritten", "the slice returned by OnPack changed while later payloads were packed", human)
+				}
 				u, uerr := pipe.OnUnpack(append([]byte(nil), packed...))
 				if uerr == nil {
 					unpackedOK = true
